@@ -18,7 +18,7 @@ LEVEL = {"quick": "exploration", "thorough": "exploration"}
 # ---------------------------------------------------------------------------------------
 def generate(rng, tier, index):
     kind = rng.choice(["spect", "spect", "spect", "lang", "lang", "ctx", "bare"])
-    n = rng.choice([0, 1, 2, 3, 5, 6, 8, 8, 12, 12, 16, 24])
+    n = rng.choice([0, 1, 2, 3, 5, 6, 8, 8, 12, 12, 16, 24, 40])
     W = rng.choice([1, 1, 2, 2, 3])
     style = rng.randrange(3)
     if style == 0:
@@ -29,7 +29,7 @@ def generate(rng, tier, index):
     else:  # one long outlier, rest short
         lens = [rng.randrange(1, 4) for _ in range(n)]
         if n:
-            lens[rng.randrange(n)] = 12
+            lens[rng.randrange(n)] = rng.choice([12, 12, 33])
     sc = {
         "kind": kind,
         "n": n,
@@ -71,13 +71,18 @@ def generate(rng, tier, index):
     # loaded length positive: "x * y <= Y * batch_size" leaves x undefined for y = 0
     if kind == "lang" and rng.random() < 0.3 and n and not (sc["size_batch_by_length"] and sc["sos"] is None and sc["eos"] is None):
         sc["rlens"][rng.randrange(n)] = 0
+    if rng.random() < 0.004:
+        # beyond 8-bit counters: more than 256 length classes
+        sc.update(kind="lang", n=300, W=1, rlens=rng.sample(range(1, 321), 300), lens=[1] * 300, num_length_buckets=rng.choice([257, 300]), batch_size=2,
+                  size_batch_by_length=rng.random() < 0.5, shuffle=True, ref2d=False, sos=None, eos=None, init_epoch=[0], mode="uneven")
+        kind, n, W = "lang", 300, 1
     if kind == "bare":
         nb = rng.randrange(1, 4)
         sc["idx2bucket"] = [rng.randrange(nb) for _ in range(n)]
         sc["bucket2size"] = [rng.randrange(1, 5) for _ in range(nb)]
         sc["bucket_names"] = rng.choice(["int", "str", "neg", "tuple"])
     ops = []
-    for _ in range(rng.randrange(2, 7)):
+    for _ in range(rng.randrange(2, 7) if n < 100 else 1):
         r = rng.randrange(W)
         k = rng.random()
         if k < 0.5:
